@@ -108,4 +108,16 @@ PROPS = {
         "trusted_base": ["the classification of immediates by wasmparser field name (decode.rs)"],
         "assumptions": ["C03_partial carries offset < 2^32 for memory64 accesses (D5)"],
     },
+    "C11": {
+        "claim": "Lean theorems, for every module prefix, every list of emitted functions and every operator encoding (the encoder is a parameter; local declarations are opaque bytes; the code section is laid out with real LEB128): every pair of the instruction map is the location of an emitted operator and the absolute offset at which that operator's bytes begin in the binary, and no pair carries the default (inserted) location (map_entries_point_at_their_instruction); every function range delimits exactly that function's code-section entry (ranges_delimit_entries); the reported code-section start is where the section contents begin when the count-LEB length is subtracted (code_start_is_content_start), which is a kernel-checked obligation on the expression the translator regenerates from ModuleFunctions::emit on every run. The raw location map of the Emit visitor pairs each emitted operator, in order, with its position (emitBody_eq_flatten). Correspondence: the CodeTransform observed by a spy custom section is predicted exactly (start, ranges, every pair) from the input module and the observed operator byte lengths. Oracle: each pair must hit an operator boundary of the decoded output that is the same instruction as the input operator at the input offset, for {unchanged, instructions inserted, GC}, with function counts and body sizes on both sides of LEB boundaries.",
+        "level_note": "Trusted: Lean kernel; hand model of the offset loop and of the Emit visitor's map (sampled against the code each run); wtrans text extraction of the code_section_start expression; wasmparser operator offsets; wasm-encoder section framing (modelled).",
+        "technique": "Lean 4 proof parametric in the encoder (byte-layout soundness of the offset bookkeeping) + translator-extracted expression + exact-prediction correspondence",
+        "lean_modules": ["Walrus.Props.C11"],
+        "gen": ["codestart"],
+        "suites": [{"name": "offsets"}],
+        "rule": "generated modules (random feature mix, all functions exported) x {unchanged, unchanged, two instructions inserted at the start of every second function, GC}; plus synthetic modules with 1/2/127/128/129(/300/16383/16384) functions and first bodies of 126..129 (16383..16385) bytes x {unchanged, inserted}. Non-trivial: more than one function; distinct by request",
+        "strength": "full for the model; the inserted-instruction and GC variants are decided by the oracle (the model request covers the unchanged variant)",
+        "trusted_base": ["operator byte lengths are observed from the output (the encoder is a parameter of the theorems)"],
+        "assumptions": ["distinct input locations (byte offsets) per instruction, as the default on_instr_loc gives"],
+    },
 }
